@@ -742,6 +742,47 @@ fn check_presentation_contexts(
     Ok((pc.clone(), String::from(ts.uid())))
 }
 
+/// Select a presentation context for a file with plain values
+/// (verification hook around `check_presentation_contexts`).
+///
+/// Each presentation context is given as
+/// `(id, abstract syntax UID, transfer syntax UID)` and is taken as accepted.
+/// On success, returns the presentation context selected in the same form
+/// plus the UID of the transfer syntax to use.
+/// On failure, returns the error message.
+#[cfg(enet4_dicom_rs_verif)]
+#[allow(dead_code)]
+pub fn check_presentation_contexts_for_verif(
+    sop_class_uid: String,
+    file_transfer_syntax: String,
+    presentation_contexts: Vec<(u8, String, String)>,
+    ignore_sop_class: bool,
+    never_transcode: bool,
+) -> Result<((u8, String, String), String), String> {
+    let file = DicomFile {
+        file: PathBuf::new(),
+        sop_class_uid,
+        sop_instance_uid: String::new(),
+        file_transfer_syntax,
+        ts_selected: None,
+        pc_selected: None,
+    };
+    let pcs: Vec<_> = presentation_contexts
+        .into_iter()
+        .map(|(id, abstract_syntax, transfer_syntax)| {
+            dicom_ul::pdu::PresentationContextNegotiated {
+                id,
+                reason: dicom_ul::pdu::PresentationContextResultReason::Acceptance,
+                transfer_syntax,
+                abstract_syntax,
+            }
+        })
+        .collect();
+    check_presentation_contexts(&file, &pcs, ignore_sop_class, never_transcode)
+        .map(|(pc, ts)| ((pc.id, pc.abstract_syntax, pc.transfer_syntax), ts))
+        .map_err(|e| e.to_string())
+}
+
 // transcoding functions
 
 #[cfg(feature = "transcode")]
